@@ -382,7 +382,10 @@ def make_case(rng, n=None, target=None):
     pre = []
     if jobs and schema["kind"] in ("none",) and rng.random() < 0.15:
         pre = sorted(rng.sample(range(len(jobs)), min(len(jobs), rng.choice([1, 1, 2]))))
-    return {"k": "rt", "jobs": jobs, "target": target, "path": path, "schema": schema, "pre": pre}
+    case = {"k": "rt", "jobs": jobs, "target": target, "path": path, "schema": schema, "pre": pre}
+    if rng.random() < 0.08:
+        case["where"] = "beside-ws"
+    return case
 
 
 # hand-picked cases: the shapes DESIGN §5 lists, and their harmless neighbours
@@ -392,6 +395,8 @@ def fixed_cases():
         yield {"k": "rt", "jobs": J({"a": 1}, {"a": 10}, {"a": 100}), "target": t, "path": {"kind": "none"},
                "schema": {"kind": "none"}, "pre": []}
         yield {"k": "rt", "jobs": J({"a": 1}), "target": t, "path": {"kind": "none"}, "schema": {"kind": "none"}, "pre": []}
+        yield {"k": "rt", "jobs": J({"a": 1}, {"a": 2}), "target": t, "path": {"kind": "none"}, "schema": {"kind": "none"},
+               "pre": [], "where": "beside-ws"}
         yield {"k": "rt", "jobs": J(), "target": t, "path": {"kind": "none"}, "schema": {"kind": "none"}, "pre": []}
     for t in ["dir", "zip", "tar"]:
         yield {"k": "rt", "jobs": J({"a": 1}, {"a": "1"}, {"a": 2}), "target": t, "path": {"kind": "none"},
@@ -834,6 +839,10 @@ def run_rt(case, ctx):
         kind = case["target"]
         mkind = model_target(kind)
         target = os.path.join(S, "out", "exp" + TARGET_EXT[kind])
+        if case.get("where") == "beside-ws":
+            # the export lies inside the importing project's directory, next to its workspace, under a name that
+            # starts like the workspace's (F-16h: the "already in the workspace" test was a string prefix test)
+            target = os.path.join(S, "dst", "workspace_exp" + TARGET_EXT[kind])
 
         # ---------------- build the source project ----------------
         by_index = {}
@@ -935,6 +944,8 @@ def run_rt(case, ctx):
         dir_members = sorted(n for n, d in members if d in ("d", "e"))
         esc_roots = escape_roots(case)
         tags.append("target=" + kind)
+        if case.get("where"):
+            tags.append("target-place=" + case["where"])
         tags.append("path=" + path["kind"])
         tags.append("schema=" + case["schema"]["kind"])
         tags.append("njobs=%d" % min(len(jobs), 6))
@@ -1206,7 +1217,8 @@ def run_rt(case, ctx):
         keyv = None
         if jobs:
             keyv = [sorted(tagged(sp) for sp in sps.values()), kind, json.dumps(case["path"], sort_keys=True),
-                    json.dumps({k: v for k, v in case["schema"].items() if k != "layout"}, sort_keys=True), case.get("pre", [])]
+                    json.dumps({k: v for k, v in case["schema"].items() if k != "layout"}, sort_keys=True), case.get("pre", []),
+                    case.get("where")]
         if oracle:
             tags.append("oracle-fail")
         return {"model": model, "impl": impl, "oracle": oracle, "tags": tags, "key": keyv, "info": info}
